@@ -473,6 +473,33 @@ impl<'a, 'tcx> Cx<'a, 'tcx> {
                         }
                     }
                 }
+            } else if let ConstValue::Indirect { alloc_id, offset } = val {
+                // a named `const X: &[u8] / &str = ..`: the fat pointer itself lives in an allocation (pointer word with provenance + length word)
+                if let Some(mir::interpret::GlobalAlloc::Memory(m)) = tcx.try_get_global_alloc(alloc_id) {
+                    let a = m.inner();
+                    let off = offset.bytes() as usize;
+                    let is_fat = matches!(ty.kind(), ty::Ref(_, inner, _) if inner.is_slice() || inner.is_str());
+                    if is_fat && a.len() >= off + 16 {
+                        let raw = a.inspect_with_uninit_and_ptr_outside_interpreter(off..off + 16);
+                        let mut pw = [0u8; 8];
+                        pw.copy_from_slice(&raw[0..8]);
+                        let mut lw = [0u8; 8];
+                        lw.copy_from_slice(&raw[8..16]);
+                        let poff = u64::from_le_bytes(pw) as usize;
+                        let plen = u64::from_le_bytes(lw) as usize;
+                        for (at, prov) in a.provenance().ptrs().iter() {
+                            if at.bytes() as usize == off {
+                                if let Some(mir::interpret::GlobalAlloc::Memory(tm)) = tcx.try_get_global_alloc(prov.alloc_id()) {
+                                    let ta = tm.inner();
+                                    if plen <= 4096 && poff + plen <= ta.len() {
+                                        let bytes = ta.inspect_with_uninit_and_ptr_outside_interpreter(poff..poff + plen);
+                                        v.push(("str", J::s(String::from_utf8_lossy(bytes).to_string())));
+                                    }
+                                }
+                            }
+                        }
+                    }
+                }
             } else if let ConstValue::Scalar(mir::interpret::Scalar::Int(si)) = val {
                 // e.g. C-like enum constants, newtypes around ints
                 let size = si.size();
